@@ -1013,6 +1013,9 @@ def call_rotation_ctor(it, fn, args, kwargs, node):
 # ====================================================================================================== methods
 def call_method(it, recv, name, args, kwargs, node, fr):
     from . import imgdom as _img
+    if getattr(recv, "file_text", None) is not None:
+        from .concrete import file_method
+        return file_method(it, recv, name, args, node)
     if isinstance(recv, _img.CompStack):
         if name == "reshape":
             shape = args[0] if len(args) == 1 and isinstance(args[0], Seq) else Seq(args, "tuple")
@@ -1636,6 +1639,22 @@ def seq_method(it, s, name, args, kwargs, node, fr):
         s.items.append(args[0])
         it.record("call", "list.append", [s] + args, {}, node)
         return K(None)
+    if getattr(it, "literal", False) and s.kind == "list":
+        # literal-input mode: the list is the list (queue / stack operations are followed exactly)
+        idx_ = pyval(args[0]) if args and is_pyconst(args[0]) else None
+        if name == "pop" and (not args or isinstance(idx_, int)):
+            if not s.items:
+                raise Unsupported("pop from an empty list on the followed path", node)
+            return s.items.pop(*([idx_] if args else []))
+        if name == "insert" and len(args) == 2 and isinstance(idx_, int):
+            s.items.insert(idx_, args[1])
+            return K(None)
+        if name == "reverse" and not args:
+            s.items.reverse()
+            return K(None)
+        if name == "clear" and not args:
+            del s.items[:]
+            return K(None)
     if name == "extend":
         items = it.iter_items(args[0])
         if items is None:
